@@ -3,7 +3,7 @@ from .pipeline import Job
 
 
 def register(J):
-    J.append(Job("rfwc", ["C06", "C16", "C13", "C20", "C05"], "harness/rfwc.c",
+    J.append(Job("rfwc", ["C06", "C16", "C13", "C20", "C05", "C17"], "harness/rfwc.c",
                  sources=["lib/getfilecontents.c"], stubs=["stubs/fs_rfwc.c"],
                  contracts=["contracts/rfwc.h"], enforce="read_file_with_callback",
                  replace=["read_file", "get_absolute_path", "econf_freeFile"],
@@ -18,7 +18,8 @@ def register(J):
                            "rejection -> ECONF_PARSING_CALLBACK_FAILED and nothing used; the parser's "
                            "precondition (gate passed, callback accepted) holds at its only call; "
                            "C13/C20: parse failure frees the object once and clears the out-pointer. C05: the parser is "
-                           "entered with the caller's delimiter set and comment set, \"#\" for an empty comment set."))
+                           "entered with the caller's delimiter set and comment set, \"#\" for an empty comment set. C17: ... and "
+                           "with the RESOLVED absolute path (the path an object reports)."))
     for n, fn, repl in ((1, "econf_readFileWithCallback", ["econf_newKeyFile_with_options", "read_file_with_callback", "econf_freeFile"]),
                         (2, "econf_readFile", ["econf_readFileWithCallback"])):
         J.append(Job("entry." + fn, ["C16", "C06", "C13", "C20"], "harness/entry.c", sources=["lib/libeconf.c"],
